@@ -14,7 +14,7 @@ VERDICT = "c01_verdict"
 EXPLAIN = "c01_explain"
 CASES_PER_FILE = 60
 CASE_FILE_BYTES = 120000
-TIERS = {"quick": {"n": 1400}, "thorough": {"n": 30000}}
+TIERS = {"quick": {"n": 1400}, "thorough": {"n": 16000}}
 RULE = ("class under test OrderedMultiDict (3/4) or its subclass urlutils.QueryParamDict (1/4); histories of 1-40 (thorough: 1-70) public operations over two live OrderedMultiDicts, 2-5 key tokens and "
         "3-6 value tokens, arguments rotated over list/tuple/generator/iterator/list-of-lists, dict/OrderedDict/"
         "mappingproxy/keys()+__getitem__ object, the other OMD, the object itself, kwargs; returned and passed "
